@@ -311,8 +311,11 @@ func (c *Conn) shutdown(abortErr error) error {
 		if a != nil {
 			releaseList(a.resultCapTable).release()
 			// Because shutdown is now the only task running, no need to
-			// acquire sender lock.
-			a.releaseMsg()
+			// acquire sender lock.  Placeholder answers (errorAnswer, or
+			// answers whose target lookup failed) have no message.
+			if a.releaseMsg != nil {
+				a.releaseMsg()
+			}
 		}
 	}
 
